@@ -28,9 +28,17 @@ type Ctx struct {
 	refine map[string]sliceRep
 	uOf    map[string]string // signed term -> its unsigned (two's complement) representation
 	rawFacts [][]string      // typing facts collected while building the body of a quantified hypothesis
+	caseConds []caseCond
 	quants   map[string]*quantInfo
 	qorder   []string
 	defs     map[string]string // define-fun name -> body
+}
+
+type caseCond struct {
+	term  string
+	at    int
+	visit int32
+	lenTerm string // length of the slice before the append
 }
 
 // quantInfo remembers a universally quantified formula built from a spec, so
@@ -65,11 +73,15 @@ type Obl struct {
 	hist    *big.Int // block visits that can precede this obligation; nil = everything
 	hasQuant bool
 	shortFirst bool
+	sk0     string   // first skolem constant of a quantified goal
+	cases   []string // Bool terms worth a case split (in-place vs. growth of recent appends)
 }
 
 func newCtx() *Ctx {
 	c := &Ctx{cons: map[string]string{}, maxv: map[string]*big.Int{}, lowz: map[string]int{}, decls: map[string]bool{}, reps: map[string]sliceRep{}, splits: map[string][2]chunk{}, refine: map[string]sliceRep{}, uOf: map[string]string{}, quants: map[string]*quantInfo{}, defs: map[string]string{}}
-	for _, l := range []string{"(define-sort HP () (Array Int (Array Int Int)))", "(declare-fun tag (Int) Int)", "(declare-fun wraps (Int) Int)"} {
+	for _, l := range []string{"(define-sort HP () (Array Int (Array Int Int)))", "(declare-fun tag (Int) Int)", "(declare-fun wraps (Int) Int)",
+		// the all-zero object row (a named array instead of (as const ...): cvc5's array solver rejects chains over constant arrays)
+		"(declare-const zeroRow (Array Int Int))", "(assert (forall ((x Int)) (! (= (select zeroRow x) 0) :pattern ((select zeroRow x)))))"} {
 		c.emit(l, false)
 	}
 	return c
@@ -388,7 +400,9 @@ func (c *Ctx) skolemize(o *Obl, pc, cond string) {
 		name := fmt.Sprintf("sk_%s!%d", sanitize(src), c.n)
 		sk[src] = name
 		extra = append(extra, fmt.Sprintf("(declare-const %s Int)", name))
-		_ = i
+		if i == 0 {
+			o.sk0 = name
+		}
 	}
 	inst := func(qi *quantInfo) string {
 		b := qi.body
@@ -418,4 +432,25 @@ func (c *Ctx) skolemize(o *Obl, pc, cond string) {
 	}
 	o.extra = extra
 	o.goal = fmt.Sprintf("(=> %s %s)", pc, body)
+}
+
+// add and mulK build folded address arithmetic.
+func (c *Ctx) add(a, b string) string {
+	if a == "0" {
+		return b
+	}
+	if b == "0" {
+		return a
+	}
+	return c.I("(+ %s %s)", a, b)
+}
+
+func (c *Ctx) mulK(a string, k int) string {
+	if k == 1 {
+		return a
+	}
+	if v, ok := isLit(a); ok {
+		return new(big.Int).Mul(v, big.NewInt(int64(k))).String()
+	}
+	return c.I("(* %s %d)", a, k)
 }
